@@ -197,6 +197,14 @@ func (p *Path) runBlocks(fr *Frame, b *ssa.BasicBlock, stop *ssa.BasicBlock) Val
 			return nil
 		}
 		fr.block = b
+		if p.st.Blocks != nil && fr.fn.Pkg != nil {
+			bm := p.st.Blocks[fr.fn]
+			if bm == nil {
+				bm = map[int]bool{}
+				p.st.Blocks[fr.fn] = bm
+			}
+			bm[b.Index] = true
+		}
 		// phis first (parallel assignment)
 		nphi := 0
 		for _, in := range b.Instrs {
